@@ -220,8 +220,9 @@ func (eval *Evaluator) evaluateFromDiscreteLogSets(GaloisElement func(k int) (ga
 
 	v++
 
-	// Second and third conditions of line 7 or 17
-	if v == windowSize || k == 1 {
+	// Second and third conditions of line 7 or 17 (the last step of the negative loop is k = -1: the pending
+	// automorphism must be applied before the products of line 10)
+	if v == windowSize || k == 1 || k == -1 {
 
 		if err := eval.Automorphism(acc, GaloisElement(v), acc); err != nil {
 			return v, err
@@ -251,7 +252,12 @@ func getGaloisElementInverseMap(GaloisGen uint64, N int) (GaloisGenDiscreteLog m
 	for i := 0; i < NHalf; i++ {
 		GaloisGenDiscreteLog[pow] = i
 		/* #nosec G115 -- twoN cannot be negative */
-		GaloisGenDiscreteLog[uint64(twoN)-pow] = -i
+		if i == 0 {
+			// -g^0 = 2N-1: "0 in the negative set is 2N" (the key BlindRotateCore queries), -0 would collide with g^0
+			GaloisGenDiscreteLog[uint64(twoN)-pow] = twoN
+		} else {
+			GaloisGenDiscreteLog[uint64(twoN)-pow] = -i
+		}
 		pow *= GaloisGen
 		pow &= mask
 	}
